@@ -8,9 +8,8 @@ namespace sim {
 static thread_local TaskCtx* t_ctx = nullptr;
 TaskCtx*& current_ctx() { return t_ctx; }
 
-static std::atomic<long> g_san_reports{0};
-long sanitizer_reports() { return g_san_reports.load(std::memory_order_relaxed); }
-void sanitizer_reports_reset() { g_san_reports.store(0, std::memory_order_relaxed); }
+// the counter and the sanitizer callbacks live in core/sched.cpp (uninstrumented translation unit): a callback
+// that executes instrumented code from inside the TSan runtime's report path can deadlock the runtime
 
 void seam_before(SeamCtl* ctl, int method, const void* x, const void* y, size_t elem_size)
 {
@@ -129,9 +128,6 @@ void on_event(const FacView& v)
 
 // ---- sanitizer callbacks ---------------------------------------------------------------------
 extern "C" {
-__attribute__((used, visibility("default"))) void __asan_on_error() { sim::g_san_reports++; }
-__attribute__((used, visibility("default"))) void __tsan_on_report(void*) { sim::g_san_reports++; }
-__attribute__((used, visibility("default"))) void __ubsan_on_report() { sim::g_san_reports++; }
 __attribute__((used, visibility("default"), no_sanitize("address", "thread", "undefined"))) const char* __asan_default_options()
 {
     return "halt_on_error=0:detect_leaks=0:exitcode=77:malloc_fill_byte=190:max_malloc_fill_size=268435456:"
